@@ -62,8 +62,16 @@ MANIFEST = {
                   "in-range values of every leaf kind of an init (C19_box_roundtrip_* and C19LeafPPProofs); C19_built_fragmented_trex, "
                   "C19_roundtrip_checker_sound and C19_roundtrip_partial (271 histories decided by computation) remain as independent "
                   "confirmations, and roundtrip_ok + the hypotheses of C19_roundtrip are evaluated, extracted, on every correspondence "
-                  "case. Still only explored (search on the real code): typed decoding of dac3/dec3/wvtt/stpp (opaque payloads in the "
-                  "snapshot of C01's model; stpp and the records have their own theorems) and the byte level of moof/mdat (C05's box "
+                  "case. AC-3 / E-AC-3 (round 4, coq/c19/C19Ac3Model.v = decodeDac3FromData / decodeDec3FromData over C13's bits.Reader model): "
+                  "C19_dac3_roundtrip (EVERY dac3 whose six fields fit their bits: the 3 bytes written decode to the fields supplied, Reserved 0, no "
+                  "initial zeroes), C19_dec3_roundtrip (EVERY dec3 with a 13-bit data rate and 1..8 substreams whose fields fit their bits, "
+                  "chan_loc present iff num_dep_sub > 0: the bytes written decode to the same substream list, nothing left as Reserved; "
+                  "C19_dec3_chanloc_refuted: the chan_loc guard is exact), C19_descriptor_ac3_decoded / C19_descriptor_ec3_decoded (a "
+                  "successful Set{AC3,EC3}Descriptor with such a configuration adds one entry whose box is the audio sample entry with a "
+                  "dac3/dec3 child whose payload decodes to exactly the configuration supplied; by C19_roundtrip that payload is what the "
+                  "decoded init holds). Still only explored (search on the real code): typed decoding of wvtt/vttC (opaque payload in the "
+                  "snapshot of C01's model; stpp and the records have their own theorems; dac3/dec3 are typed by C19's own decoders, the "
+                  "tree decoder of the snapshot still returns them as unknown boxes) and the byte level of moof/mdat (C05's box "
                   "codecs are proved for trun/tfhd only). Refutations: mp4a sample rate for "
                   "96000 Hz (known finding), one-byte elng tag, AddEmptyTrack on decoded inits (outside the quantifier).",
     "level_note": "Trusted: Coq kernel, extraction (ExtrOcamlBasic), OCaml/Go glue; in C19_inv/_tracks/_descriptor_*/_roundtrip the SPS "
@@ -72,7 +80,10 @@ MANIFEST = {
                   "parser's answer on every AVC/HEVC call of every case); C19_fragments_* rest on C05's fragment model (coq/c05, live "
                   "import, tied to the code by C05's own correspondence) and C19_descriptor_aac_typed on C18's AudioSpecificConfig model "
                   "(coq/c18, live import); the box codec used for the tree is a frozen copy of C01's model (C19BoxModel.v, snapshot of "
-                  "88f92e5), boxes it has no leaf for (dac3, dec3, wvtt, stpp) are opaque byte payloads written by C19's models; "
+                  "88f92e5), boxes it has no leaf for (dac3, dec3, wvtt, stpp) are opaque byte payloads written by C19's models; the dac3/dec3 "
+                  "decoders of C19Ac3Model.v are hand transcriptions tied to the code by the Y/D correspondence lines (both decoder entry "
+                  "points, encoded / cut-short / extended / random payloads), the bit level under them is C13's reader/writer model "
+                  "(coq/c13, live import of C13PlainProofs); "
                   "C15Spec/C15HevcSpec serialisers + validity predicates generate the parameter sets (expected values come from "
                   "the generating field values); in-memory chroma/bit-depth values of an avcC with profile 66/77/88 are not part "
                   "of the box and compared modulo that; the correspondence is only as good as its generated histories.",
@@ -120,6 +131,8 @@ def run(ctx):
         "comparison of InitSegment.Encode on every case, its decoder by C01's correspondence at that commit and by the search's "
         "real-code round trip); esds is the typed leaf (CreateESDescriptor's values); "
         "dac3/dec3/wvtt/stpp payloads are written by C19's own transcriptions",
+        "model: coq/c19/C19Ac3Model.v is a hand transcription of mp4/dac3.go decodeDac3FromData and mp4/dec3.go decodeDec3FromData "
+        "(+ bits.Reader.ReadRemainingBytes) over coq/c13/C13Model.v read_plain; the payload encoders are C19TreeModel.dac3_payload / dec3_payload",
         "model: coq/c19/C19FragModel.v get_trex = MvexBox.GetTrex on a box tree, as the trex record of coq/c05/C05Model.v; the fragment "
         "side of C19_fragments_* is C05's model (coq/c05/C05FragModel.v: Fragment building, Encode layout, GetFullSamples)",
         "model: coq/c19/C19DimsProofs.v c15_avc_parser / c15_hevc_parser = C15's models of avc.ParseSPSNALUnit(sps,false) / "
@@ -184,6 +197,8 @@ def run(ctx):
     lines = cases.splitlines()
     res = run_model_par(model, cases)
     mism = [l for l in res if not l.startswith("OK ")]
+    ac3hyp = sum(1 for l in res if l.endswith(" ac3hyp"))
+    ac3nohyp = sum(1 for l in res if l.endswith(" ac3nohyp"))
     hyp = sum(1 for l in res if l.endswith(" hyp"))
     nohyp = sum(1 for l in res if l.endswith(" nohyp"))
     distinct = len(set(l.split("\t", 2)[2] for l in lines if l.count("\t") >= 2))
@@ -203,7 +218,9 @@ def run(ctx):
     ctx.cov["distinct_nontrivial"] += distinct
     ctx.notes["correspondence"] = {
         "cases": len(lines), "mismatches": len(mism),
-        "init_trees_satisfying_the_hypotheses_of_C19_roundtrip": hyp, "init_trees_outside_them": nohyp, "distinct_cases": distinct, "histories_by_outcome": outcomes, "kinds": kinds,
+        "init_trees_satisfying_the_hypotheses_of_C19_roundtrip": hyp, "init_trees_outside_them": nohyp,
+        "encoded_dac3_dec3_boxes_satisfying_the_hypotheses_of_C19_dac3_roundtrip_or_C19_dec3_roundtrip": ac3hyp,
+        "encoded_dac3_dec3_boxes_outside_them": ac3nohyp, "distinct_cases": distinct, "histories_by_outcome": outcomes, "kinds": kinds,
         "distribution": "exhaustive: every media type (7 supported, 6 handler-style, 4 unsupported) x 20 language tags (length 2,3,5,6,8,10,27,35,36,39,300 "
                         "incl. en-US, zh-Hant, upper case, tags with variants / extensions / private use) one track; every ordered pair of media types; every AAC object type x "
                         "standard frequency; every acmod x lfeon x fscod. Random: %d in-scope histories (0-5 tracks, 0-2 descriptors "
@@ -218,7 +235,13 @@ def run(ctx):
                         "%d random histories vs C01's encoder on the model's tree, + roundtrip_ok on the model side. RA/RH: %d random avcC and "
                         "%d hvcC records (every profile_idc of avc/sps.go x NoTrailingInfo exhaustively; counts 0..33/257, lengths up to 65540, "
                         "out-of-range field values) -> Size, Encode, Decode; DA/DH: two mutated/truncated/random byte strings per record "
-                        "-> Decode (+ re-encoding)" % (n, n, n // 4, n // 4, npool, npool, n // 4 + n // 8, n // 2, n // 2),
+                        "-> Decode (+ re-encoding). Y/D (dac3/dec3): every acmod x lfeon x fscod, every acmod x lfeon x single chan_loc bit, "
+                        "n/4 random boxes each (1-8 substreams, num_dep_sub 0-15; one in three with Reserved bytes / InitialZeroes / a ChanLoc "
+                        "next to num_dep_sub 0) -> Encode vs the payload encoders, then both decoder entry points (DecodeBoxSR, DecodeBox) vs "
+                        "dac3_decode / dec3_decode on the encoded payload, on every cut of one in eight, with bytes appended / zero bytes in "
+                        "front; malformed stream: n/4 random payloads of 0-39 bytes and dac3 payloads of 255-600 bytes around the "
+                        "byte(len-3) wrap of InitialZeroes. On every Y line whose fields satisfy dac3_okb / dec3_okb (hypotheses of "
+                        "C19_dac3_roundtrip / C19_dec3_roundtrip) the theorem's conclusion is evaluated by the extracted model" % (n, n, n // 4, n // 4, npool, npool, n // 4 + n // 8, n // 2, n // 2),
     }
     ctx.cov["samples"] += [l[:300] for l in lines[5:7]] + [l[:400] for l in lines[-2:]]
     ctx.log("correspondence: %d cases, %d mismatches" % (len(lines), len(mism)))
@@ -267,7 +290,7 @@ def run(ctx):
                        "distinct = distinct case lines. search: independent oracle on in-scope "
                        "histories: ids/trex/next id/contiguity, handler+media header table, language rule, data reference index, trak tree shape, "
                        "descriptor contents vs supplied (dimensions, every avcC/hvcC field and the codec string vs the field values the SPS was generated from, "
-                       "parameter sets byte for byte, ASC decoded back + the esds tree values; on the built AND on the decoded init), Encode = EncodeSW, encode -> DecodeFile / DecodeFileSR -> equal "
+                       "parameter sets byte for byte, ASC decoded back + the esds tree values, every dac3 field and every dec3 substream (1-8) vs the values recorded before the call; on the built AND on the decoded init), Encode = EncodeSW, encode -> DecodeFile / DecodeFileSR -> equal "
                        "Info dump + equal re-encoding + IsFragmented; for EVERY track of every init: trex of the decoded init = (id, 1, 0, 0, 0), a fragment "
                        "CreateFragment(seq, id) with a generated add-history (1-5 samples, uniform runs that OptimizeTfhdTrun folds into tfhd defaults "
                        "and non-uniform ones, AddFullSample / AddFullSampleToTrack incl. refused foreign ids / AddSample + AddSampleToTrack / "
